@@ -234,6 +234,8 @@ type Explorer struct {
 	PreemptBound *int
 	// MaxPointOccurrence, when > 0, only preempts at the first so many occurrences of each site.
 	MaxPointOccurrence int
+	// SiteWide arms whole sites ("<site>#*": every goroutine reaching the site parks there) instead of single occurrences.
+	SiteWide bool
 	// CandidateBound > 0 also collects preemption candidates from every unarmed schedule with up to that many deviations
 	// (default: the occurrences of the default schedule only).
 	CandidateBound int
@@ -636,6 +638,19 @@ func (e *Explorer) preemptionSweep() {
 		e.collect = nil
 		e.Rep.Bound(e.Scn.Name+".preemption_candidates_from_deviations", e.CandidateBound)
 	}
+	if e.SiteWide {
+		// hold EVERY goroutine that reaches the site (one candidate per site): independent of which goroutine gets there
+		// first, hence reproducible where several goroutines run the same code (e.g. one closure per pipeline node)
+		var sites []string
+		seenSite := map[string]bool{}
+		for _, c := range cands {
+			if k := strings.LastIndex(c, "#"); k >= 0 && !seenSite[c[:k]] {
+				seenSite[c[:k]] = true
+				sites = append(sites, c[:k]+"#*")
+			}
+		}
+		cands = sites
+	}
 	seen := map[string]bool{}
 	done := 0
 	budget := e.MaxBound - 1
@@ -650,7 +665,7 @@ func (e *Explorer) preemptionSweep() {
 			continue
 		}
 		seen[c] = true
-		if k := strings.LastIndex(c, "#"); k >= 0 && e.MaxPointOccurrence > 0 {
+		if k := strings.LastIndex(c, "#"); k >= 0 && e.MaxPointOccurrence > 0 && !e.SiteWide {
 			if n, err := strconv.Atoi(c[k+1:]); err == nil && n >= e.MaxPointOccurrence {
 				continue
 			}
